@@ -57,6 +57,15 @@ def scan_units(vdir=None):
     return units
 
 
+def split_arrow(t):
+    """old=>new, or old ==>> new when the old text itself contains `=>`."""
+    if " ==>> " in t:
+        a, b = t.split(" ==>> ", 1)
+        return a, b
+    a, b = t.split("=>", 1)
+    return a, b
+
+
 def expand_includes(path, depth=0):
     """`//@include name` pulls in vspec/inc/name (shared preludes; may contain directives and further includes)."""
     out = []
@@ -123,10 +132,10 @@ def generate(unit, repo):
                     _, k, rest = d.split(None, 2)
                     loops.setdefault(int(k), []).append(rest)
                 elif d.startswith("//@subst_re "):
-                    a, b = d[len("//@subst_re "):].split("=>", 1)
+                    a, b = split_arrow(d[len("//@subst_re "):])
                     substs.append(("re:" + a, b))
                 elif d.startswith("//@subst "):
-                    a, b = d[len("//@subst "):].split("=>", 1)
+                    a, b = split_arrow(d[len("//@subst "):])
                     substs.append((a, b))
                 elif d.startswith("//@before "):
                     a, b = d[len("//@before "):].split("=>", 1)
